@@ -73,7 +73,14 @@ def kernel_catalogue(v, seed):
         "arc": lambda: K.ScaleKernel(K.ArcKernel(K.MaternKernel(nu=2.5), ard_num_dims=d)),
         "cyl": lambda: K.CylindricalKernel(3, K.RBFKernel()),
         "constant_rbf": lambda: K.ConstantKernel(constant_constraint=Interval(lo, hi)) + K.RBFKernel(),
+        "rbf_prior_by_name": lambda: _prior_by_name(K.RBFKernel(lengthscale_constraint=Interval(lo, hi)), P.GammaPrior(pa, 3.0)),
     }
+
+
+def _prior_by_name(kern, prior):
+    """a prior registered after construction by the NAME of the parameter it acts on (the documented register_prior(name, prior, 'param') form)"""
+    kern.register_prior("extra_lengthscale_prior", prior, "lengthscale")
+    return kern
 
 
 class Exact(gpytorch.models.ExactGP):
@@ -323,6 +330,7 @@ def run_cell(cell, seed):
     ops = len(hist)
     ran = 0
     was_training = model.training
+    kept = []
     for mech in MECHS:
         f2 = dict(feats, mech=mech)
         try:
@@ -362,5 +370,26 @@ def run_cell(cell, seed):
             ok, msg = util.close(b[k], a[k], 1e-12, 1e-12)
             if not ok:
                 fails.append({"sub": "restored-" + k.split("_")[0], "symptom": f"{k} of the restored model differs from the original: err={msg}", "detail": "", "features": f2})
+        kept.append((f2, restored, b))
+    # the restored objects are independent of the original: changing the ORIGINAL's parameters afterwards changes nothing in them
+    try:
+        perturb(model, seed + 17)
+        for mod in model.modules():
+            if hasattr(mod, "_clear_cache"):
+                mod._clear_cache()
+        for f2, restored, b in kept:
+            try:
+                b2 = observables(restored, spec, X, y, Xs)
+            except Exception as e:
+                fails.append({"sub": "restored-independent", "symptom": util.exc_str(e), "detail": "", "features": f2})
+                continue
+            ops += 1
+            for k in b:
+                ok, msg = util.close(b2[k], b[k], 1e-12, 1e-12)
+                if not ok:
+                    fails.append({"sub": "restored-independent", "symptom": f"{k} of the restored model changed when the ORIGINAL's parameters were modified "
+                                  f"afterwards: err={msg}", "detail": "", "features": f2})
+    except Exception as e:
+        fails.append({"sub": "restored-independent", "symptom": util.exc_str(e), "detail": "", "features": feats})
     return {"fails": fails, "sig": ",".join(sorted({f["sub"] + ":" + f["features"]["mech"] for f in fails if "mech" in f["features"]})) or "ok",
             "features": feats, "ops": ops, "nontrivial": ran > 0}
